@@ -548,3 +548,79 @@ pub fn determinism(seed: u64, n: u64) -> (u64, u64) {
     }
     (digest, bad)
 }
+
+// ------------------------------------------------------------------------------------------
+// C10 (i) through the real command loop: several `position` commands in one session
+
+pub fn run_c10_session(seed: u64, run: u64) -> Acc {
+    let mut rng = Rng::new(crate::rng::mix(seed, "C10-session", run));
+    let mut acc = Acc::new();
+    let z = crate::zobrist::ZobristHasher::create_zobrist_hasher();
+    let mut sc = Scenario::new();
+    sc.line("uci");
+    let base = workload::gen_game(&mut rng, 30);
+    let mut games: Vec<workload::Game> = vec![];
+    let n = 1 + rng.below(4);
+    for _ in 0..n {
+        let g = match rng.below(6) {
+            0 => workload::Game { start: base.start.clone(), moves: vec![], source: "" },
+            1 => {
+                let k = rng.below(base.moves.len() as u64 + 1) as usize;
+                workload::Game { start: base.start.clone(), moves: base.moves[..k].to_vec(), source: "" }
+            }
+            2 => base.clone(),
+            3 => {
+                let start = Pos::start();
+                let reps = 1 + rng.below(3) as usize;
+                let moves = workload::shuffle_game(&mut rng, &start, reps, 2);
+                workload::Game { start, moves, source: "" }
+            }
+            4 => workload::Game { start: workload::gen_position(&mut rng), moves: vec![], source: "" },
+            _ => workload::gen_game(&mut rng, 30),
+        };
+        if rng.chance(1, 3) {
+            sc.line("ucinewgame");
+        }
+        sc.line(&sa::position_line(&g.start, &g.moves, &mut rng));
+        if rng.chance(1, 4) && !g.final_pos().is_terminal() {
+            sc.line("go");
+            // the engine's answer changes board and record only at the next position command
+        }
+        games.push(g);
+    }
+    sc.line("quit");
+    let res = sa::run(&sc);
+    acc.virtual_ns += res.virtual_ns;
+    // the i-th "position" probe belongs to the i-th game
+    let probes: Vec<&crate::verif_seam::kernel::ProbeSnap> = res.probes.iter().filter(|p| p.tag == "position").collect();
+    for (g, snap) in games.iter().zip(probes.iter()) {
+        acc.evals += 1;
+        let mut model: std::collections::HashMap<u64, u32> = std::collections::HashMap::new();
+        let mut maxc = 0;
+        for p in g.positions() {
+            let e = model.entry(crate::bridge::model_key(&p, &z)).or_insert(0);
+            *e += 1;
+            maxc = maxc.max(*e);
+        }
+        if games.len() >= 2 {
+            acc.nontrivial.insert(fnv(g.start.canon_hash(), format!("{:?}|{}", g.moves_text(), games.len()).as_bytes()));
+        }
+        let got: std::collections::HashMap<u64, u32> = snap.table.iter().filter(|(_, c)| *c != 0).map(|(k, c)| (*k, *c as u32)).collect();
+        if got != model {
+            let stray = got.keys().filter(|k| !model.contains_key(k)).count();
+            let cls = if stray > 0 { "stray-entries-from-earlier-commands" } else { "wrong-count" };
+            acc.violate(Violation {
+                prop: "C10".into(),
+                sig: format!("C10/record/session/{}", cls),
+                detail: format!("after {:?} the repetition record has {} entries ({} that belong to no position of this game); the game has {} distinct positions", sa::position_line(&g.start, &g.moves, &mut Rng::new(0)), got.len(), stray, model.len()),
+                scenario: sc.to_json(),
+                run,
+            });
+            break;
+        }
+    }
+    if probes.len() < games.len() && !matches!(res.end, SimEnd::Exit(_)) {
+        acc.count("c10_session_cut_short");
+    }
+    acc
+}
